@@ -1025,8 +1025,14 @@ class Hist:
         self.reply = None
         self.owner = {H_PA: "A", H_PB: "B", H_VAULT: "B"}
         for uri, n, match in ((H_PA, "A", None), (H_PB, "B", None), (H_VAULT, "B", "prefix")):
-            r = self.b.do(self.sess[n].register(self._endpoint(n, uri), uri,
-                          options=RegisterOptions(details_arg="details", match=match)))
+            if uri == H_PB:
+                # registered through the prefix= argument of register(): "pb" under "com.myapp.hist."
+                r = self.b.do(self.sess[n].register(self._endpoint(n, uri), uri[len("com.myapp.hist."):],
+                              options=RegisterOptions(details_arg="details", match=match),
+                              prefix="com.myapp.hist."))
+            else:
+                r = self.b.do(self.sess[n].register(self._endpoint(n, uri), uri,
+                              options=RegisterOptions(details_arg="details", match=match)))
             assert r and r[0][0] == "ok", r
         for n in ("A", "B"):
             for uri, match in ((H_T, None), (H_FEED, "prefix")):
